@@ -324,7 +324,13 @@ func (d *driver) runBatch(ri int, r *runSpec, bin string, batch, cases int, kf *
 			d.addInconclusive(fmt.Sprintf("worker for %s batch %d died before its first case: %v\n%s", r.engine, batch, werr, tailStr(stderrTail, 1500)))
 			return
 		}
+		if kind != "inconclusive" && kind != "wedged" && frame == "unknown" {
+			// no coredhcp frame anywhere in the dump: the harness itself died
+			d.addInconclusive(fmt.Sprintf("HARNESS FAILURE: worker for engine %s died with no coredhcp frame on any stack (batch %d case %d):\n%s", r.engine, batch, idx, tailStr(stderrTail, 1500)))
+			kind = "harness"
+		}
 		switch kind {
+		case "harness":
 		case "inconclusive":
 			d.addInconclusive(fmt.Sprintf("engine %s batch %d case %d: no progress for the watchdog period and no lock-parked handler in the goroutine dump", r.engine, batch, idx))
 		default:
